@@ -215,7 +215,8 @@ def check_thick(rep, sc, threads, rng, idx, tier):
     op2 = OPS[(idx // 3 + 3) % len(OPS)]
     kw = {"dx": dxl * f * scale * U(unit), "dy": dyl * f * scale * U(unit), "dz": dzl * f * U("cm"), "origin": osyris.Vector(*[sc["origin"][d] * f for d in range(3)], unit="cm"),
           "resolution": res, "direction": direction_of(sc), "operation": op}
-    layers = [dg.layer("density"), dg.layer("density", operation=op2)]
+    op3 = OPS[(idx // 5 + 1) % len(OPS)]
+    layers = [dg.layer("velocity", mode="vec", operation=op3), dg.layer("density"), dg.layer("density", operation=op2)]
     tab = sc["table"]
     ids = np.array([[[tab[k][j][i][0] for i in range(nx)] for j in range(ny)] for k in range(nz)])
     vals = np.where(ids > 0, ids * 1.5, np.nan)
@@ -239,7 +240,43 @@ def check_thick(rep, sc, threads, rng, idx, tier):
         rep.mismatch({"module": "MapMachine", "field": "raises", "kind": "thick"}, f"{describe(sc, kw)} op={op}/{op2}: map raised {type(e).__name__}: {e}", case={"sc": sc, "idx": idx}, module="maps")
         return
     d = None
-    for layer, o in zip(p.layers, (op, op2)):
+    # the vector layer: every sample carries (v.u, v.v, |in-plane|); each of the three rows is reduced with the layer's operation
+    b = sc["basis"]
+    den = float(b["den"])
+    safe = np.where(ids > 0, ids, 1) - 1
+    vx, vy, vz = (np.asarray(vec[0])[safe], np.asarray(vec[1])[safe], np.asarray(vec[2])[safe])
+    pu = np.where(ids > 0, (vx * b["u"][0] + vy * b["u"][1] + vz * b["u"][2]) / den, np.nan)
+    pv = np.where(ids > 0, (vx * b["v"][0] + vy * b["v"][1] + vz * b["v"][2]) / den, np.nan)
+    pw = np.sqrt(pu * pu + pv * pv)
+    vlayer = p.layers[0]
+    with np.errstate(all="ignore"):
+        expv = [getattr(np, op3)(a, axis=0) for a in (pu, pv, pw)]
+    fac = step if op3 in ("sum", "nansum") else 1.0
+    ambv = (ids == -2).any(axis=0)
+    vdata = np.ma.getdata(vlayer["data"])
+    vmask = np.ma.getmaskarray(vlayer["data"])
+    want_vdim = (2, 0, -1, 0, 0) if op3 in ("sum", "nansum") else (1, 0, -1, 0, 0)
+    from .units_map import cgs_of_sparse as _cgs, dim_of_sparse as _dim
+    vsp = sparse_of_pint(vlayer["unit"])
+    if any(nm.startswith("?") for nm, _ in vsp) or _dim(vsp) != want_vdim:
+        d = f"unit: vector layer with operation {op3} has unit {vlayer['unit']}"
+    else:
+        vf = float(_cgs(vsp))
+        for j in range(ny):
+            for i in range(nx):
+                if ambv[j, i] or d:
+                    continue
+                for c3 in range(3):
+                    e = float(expv[c3][j, i]) * fac
+                    g = float(vdata[j, i, c3]) * vf
+                    if math.isnan(e):
+                        if not (vmask[j, i].all() or math.isnan(g)):
+                            d = f"pixel: ({i},{j}) vector entry {c3} operation {op3}: {g!r}, expected missing"
+                    elif not vmask[j, i].all() and abs(g - e) > 1e-11 * max(abs(e), 10.0 * fac):      # sums of projections of small integer vectors: absolute scale ~10
+                        d = f"pixel: ({i},{j}) vector entry {c3} operation {op3}: {g!r}, expected {e!r}" + (f" (= {op3} over the depth samples x depth step {step})" if fac != 1.0 else "")
+    for layer, o in zip(p.layers[1:], (op, op2)):
+        if d:
+            break
         with np.errstate(all="ignore"):
             import warnings
             with warnings.catch_warnings():
@@ -366,6 +403,41 @@ def validate_py_oracle(rep, scs):
     return n
 
 
+def big_mesh_threads(rep, tier):
+    """4096 cells, 64 x 64 pixels: every pixel against the exact cell index, for every thread count, repeated"""
+    import numba
+    import numpy as np
+    import osyris
+    n = 16
+    c = (np.arange(n) + 0.5) / n
+    X, Y, Z = np.meshgrid(c, c, c, indexing="ij")
+    dg = osyris.Datagroup()
+    dg["position"] = osyris.Vector(X.ravel(), Y.ravel(), Z.ravel(), unit="cm")
+    dg["dx"] = osyris.Array(np.full(n ** 3, 1.0 / n), unit="cm")
+    idxs = np.arange(n ** 3, dtype=float).reshape(n, n, n)
+    dg["density"] = osyris.Array(idxs.ravel() + 1.0, unit="g/cm**3")
+    dg["pressure"] = osyris.Array(2.0 * idxs.ravel() + 7.0, unit="erg/cm**3")
+    res = 64
+    maxt = numba.config.NUMBA_NUM_THREADS
+    pix = np.floor((np.arange(res) + 0.5) / res * n).astype(int)
+    iz = int(np.floor(0.53125 * n))
+    want = idxs[np.ix_(pix, pix, [iz])][:, :, 0].T + 1.0          # data[j, i] <-> (x_i, y_j)
+    for t in sorted({1, 2, min(7, maxt), maxt}):
+        numba.set_num_threads(t)
+        for rpt in range(2 if tier == "quick" else 6):
+            rep.case(klass=("big-mesh", t, rpt))
+            p = call_map(dg, [dg.layer("density"), dg.layer("pressure")], {"dx": 1.0 * osyris.units("cm"), "origin": osyris.Vector(0.5, 0.5, 0.53125, unit="cm"), "resolution": res, "direction": "z"})
+            a = np.ma.filled(p.layers[0]["data"], -1.0)
+            b = np.ma.filled(p.layers[1]["data"], -1.0)
+            bad = int((a != want).sum() + (b != 2.0 * (want - 1.0) + 7.0).sum())
+            if bad:
+                rep.mismatch({"module": "MapMachine", "field": "pixel", "kind": "big-mesh"}, f"uniform 16^3 mesh, 64x64 pixels, {t} threads (repetition {rpt}): {bad} pixel entries do not show the cell containing their sample point",
+                             case={"threads": t}, module="maps")
+                break
+            rep.validated()
+    numba.set_num_threads(maxt)
+
+
 def run_c03(rep, tier, seed):
     import numba
     import osyris  # noqa
@@ -384,6 +456,7 @@ def run_c03(rep, tier, seed):
         check_thin(rep, sc, threads, rng, idx, tier)
         if idx % 2 == 0:
             check_oblique(rep, sc, rng, idx, threads)
+    big_mesh_threads(rep, tier)
     numba.set_num_threads(maxt)
     rep.sample({"scenario": {k: scs[0][k] for k in ("basis", "origin", "nx", "ny", "s", "sy")}, "cells": len(scs[0]["m"]["cells"]), "containing_cell_per_pixel": scs[0]["table"][0]}, limit=2)
     rep.part("replay", scenarios=len(scs), thread_counts=threads, python_oracle_points_validated_against_tlc=n)
